@@ -9,7 +9,30 @@ use h3::webtransport::SessionId;
 use std::convert::TryFrom;
 
 /// a `Buf` made of several chunks (non-contiguous), as the decoders see it behind `BufList`/`Chain`
-struct Chunks(std::collections::VecDeque<bytes::Bytes>);
+pub(crate) struct Chunks(pub(crate) std::collections::VecDeque<bytes::Bytes>);
+
+impl Chunks {
+    /// pieces separated by `,`, none empty (`None`: not such a list)
+    pub(crate) fn parse(h: &str) -> Option<Chunks> {
+        let pieces: Option<Vec<Vec<u8>>> = h.split(',').map(parse_hex).collect();
+        let pieces = pieces?;
+        if pieces.iter().any(|p| p.is_empty()) {
+            return None;
+        }
+        Some(Chunks(pieces.into_iter().map(bytes::Bytes::from).collect()))
+    }
+
+    /// everything not yet read, chunk after chunk
+    pub(crate) fn drain(&mut self) -> Vec<u8> {
+        let mut rest = Vec::new();
+        while self.has_remaining() {
+            let c = self.chunk().to_vec();
+            rest.extend_from_slice(&c);
+            self.advance(c.len());
+        }
+        rest
+    }
+}
 
 impl Buf for Chunks {
     fn remaining(&self) -> usize {
